@@ -48,8 +48,8 @@ class Engine(ExprMixin, StmtMixin, CallMixin, EngineBase):
     def st_For(self, node, st):
         ordinal = self._loop_ord.get((node.lineno, node.col_offset), 0) if len(st.frames) == 1 else 0
         spec = self.contract.loops.get(ordinal, LoopSpec()) if (self.contract and ordinal) else LoopSpec()
-        if node.orelse:
-            raise Unsupported("for/else", node, self.path)
+        if node.orelse and not isinstance(node.iter, (ast.Tuple, ast.List)):
+            raise Unsupported("for/else over a non-literal sequence", node, self.path)
         return self.lib.for_loop(node, st, spec, ordinal)
 
     def st_While(self, node, st):
@@ -213,6 +213,9 @@ class Engine(ExprMixin, StmtMixin, CallMixin, EngineBase):
                 allowed.add(("glob", m[5:]))
                 continue
             c, f = m.split(".")
+            if c.startswith("$"):
+                allowed.add(("heap", c, f))
+                continue
             d0 = self.class_decl(c)
             fl = (list(d0.fields) + list(d0.ghost)) if f == "*" else [f]
             for f2 in fl:
